@@ -958,6 +958,14 @@ pub fn run_check(spec: &CheckSpec, tier: Tier, seed: u64, verif_dir: &str) -> i3
         let ex: String = example.chars().take(400).collect();
         println!("KNOWN-FINDING: property={} {} (seen in {} runs as {} concrete class(es); e.g. {})", spec.property, pat, n, classes.len(), ex);
     }
+    // A listed (open) finding of this property that no run of this batch
+    // reached is reported all the same: one line per listed finding.
+    for (pat, description) in super::findings::open_for(spec.property) {
+        if !by_finding.contains_key(&pat) {
+            let d: String = description.chars().take(300).collect();
+            println!("KNOWN-FINDING: property={} {} (listed; not reached by the {} runs of this batch; {})", spec.property, pat, total.runs, d);
+        }
+    }
     if let Some((v, path)) = violation_line {
         println!("violation class: {}", v.class());
         println!("detail: {}", v.detail);
